@@ -172,6 +172,12 @@ pub fn similar_args() -> Vec<Value> {
         pool::dec(100, 2),
         Value::Float(f64::NAN),
         Value::Vec(vec![Value::Float(-0.0)]),
+        // different maps / lists whose unquoted renderings coincide
+        pool::map(&[("a", Value::Int(1)), ("b", Value::Int(2))]),
+        pool::map(&[("a: i1, b", Value::Int(2))]),
+        Value::Vec(vec![Value::String("a".into()), Value::String("b".into())]),
+        Value::Vec(vec![Value::String("a\", \"b".into())]),
+        Value::String("none".into()),
     ]
 }
 
